@@ -125,6 +125,8 @@ def statements_for(mod, vias, attr="nm_zz", star=True, ctx="file"):
     for via in vias:
         out.append(mk("import", [clause(mod)], via, ctx))
         out.append(mk("import", [clause(mod, "x_al")], via, ctx))
+        if mod == "__future__":
+            continue            # `from __future__ import x` is a compiler directive, not a module import
         out.append(mk("from", [clause(mod, "-", attr)], via, ctx))
         out.append(mk("from", [clause(mod, "c_al", attr)], via, ctx))
         if star and via not in ("func", "compiled"):
@@ -188,7 +190,7 @@ def gen_cases(ctx, allow, allow_all):
                 cases.append(mk("from", [clause(m, "-", "nosuch_attr_zz")], via))
     else:
         pool = [n for n in names if n not in SKIP_IMPORT and n not in PYS and not n.startswith("_test") and not n.startswith("pytest")]
-        sample = r.sample(pool, min(len(pool), ctx.pick(36, 200)))
+        sample = r.sample(pool, min(len(pool), ctx.pick(36, 10000)))
         for n in sorted(set(sample) | set(allow)):
             cases += statements_for(n, ["direct", "exec"])
         for n in SUBMODULES + near_misses(allow)[:12]:
@@ -295,8 +297,8 @@ def work(job):
                 try:
                     exec("from %s import *" % c["mod"], ns)  # noqa: S102  CPython's own answer
                     t["star"] = sorted(k for k in ns if k != "__builtins__")
-                except Exception as e:  # noqa: BLE001
-                    t["imp"] = type(e).__name__
+                except Exception:  # noqa: BLE001
+                    t["star_unavailable"] = True      # CPython itself cannot star-import this module: nothing to compare with
             elif c["name"] != "-":
                 ns = {}
                 try:
@@ -363,6 +365,8 @@ def work(job):
                 cs["obs"] = {"exc": exc, "bound": bound, "vals": vals}
                 cs["truth"] = [truth_for(cs, c) for c in cs["clauses"]]
                 cs["src"] = src
+                if any(t.pop("star_unavailable", False) for t in cs["truth"]):
+                    continue
                 out.append(cs)
             elif cs["kind"] == "builtin":
                 gc, a = new_ctx("file")
@@ -674,9 +678,12 @@ def main(ctx):
                        "something, or is a from-import below stubs; distinct by statement text, route, configuration and context kind")
     for c in (imp[0], [x for x in imp if x["obs"]["bound"]][0], [x for x in cases if x["kind"] == "builtin" and x["name"] == "open"][0]):
         ctx.sample({k: v for k, v in c.items() if k not in ("truth",)})
-    if ctx.cov["bound_something"] < 50 or ctx.cov["outcomes"].get("ModuleNotFoundError|allow_all=False", 0) < 1000:
-        raise MachineryFailure("vacuous coverage: %s" % ctx.cov["outcomes"])
-    selftest(ctx, cases, rejected, allow)
+    if ctx.violations:
+        ctx.cov["selftest_skipped"] = "violations present"      # thin coverage is then a consequence, not a machinery failure
+    else:
+        if ctx.cov["bound_something"] < 50 or ctx.cov["outcomes"].get("ModuleNotFoundError|allow_all=False", 0) < 1000:
+            raise MachineryFailure("vacuous coverage: %s" % ctx.cov["outcomes"])
+        selftest(ctx, cases, rejected, allow)
     ctx.assumptions += [
         "names that are not identifiers cannot appear in an import statement and are skipped",
         "allow_all_imports=True: a seeded sample of installed top-level names, minus a skip list of modules whose import disturbs the process",
